@@ -728,6 +728,7 @@ fn determinism_cmd(n: u64, seed: u64) -> i32 {
     let mut digest = 0u64;
     let mut bad = 0;
     let mut total = 0u64;
+    let mut per_gen: BTreeMap<&'static str, u64> = BTreeMap::new();
     for s in &specs {
         for g in &s.gens {
             for i in 0..n {
@@ -737,8 +738,21 @@ fn determinism_cmd(n: u64, seed: u64) -> i32 {
                 let b = profiles::run_scenario(&scn, Tape::record(mix(run_seed, 1)));
                 let c = profiles::run_scenario(&scn, Tape::replay(a.tape.draws.clone()));
                 total += 1;
+                if a.overrun {
+                    // hit a harness bound (poll or tape limit): not a comparable run
+                    continue;
+                }
                 if a.full_hash != b.full_hash || a.full_hash != c.full_hash {
                     bad += 1;
+                    *per_gen.entry(g.name).or_insert(0u64) += 1;
+                    if bad == 1 || std::env::var("VERIF_ND_GEN").map(|x| x == g.name).unwrap_or(false) {
+                        WANT_LOG.store(true, Ordering::Relaxed);
+                        let a2 = profiles::run_scenario(&scn, Tape::record(mix(run_seed, 1)));
+                        let b2 = profiles::run_scenario(&scn, Tape::record(mix(run_seed, 1)));
+                        WANT_LOG.store(false, Ordering::Relaxed);
+                        let _ = std::fs::write("/var/tmp/nd_a.log", format!("{}\n{}", serde_json::to_string_pretty(&scn).unwrap(), a2.log_text));
+                        let _ = std::fs::write("/var/tmp/nd_b.log", format!("{}\n{}", serde_json::to_string_pretty(&scn).unwrap(), b2.log_text));
+                    }
                     if bad < 5 {
                         println!("NONDETERMINISM gen={} run={} hashes {:x} {:x} {:x}", g.name, i, a.full_hash, b.full_hash, c.full_hash);
                     }
@@ -747,7 +761,7 @@ fn determinism_cmd(n: u64, seed: u64) -> i32 {
             }
         }
     }
-    println!("determinism: {total} scenarios x3 executions, {bad} divergent, digest={digest:016x}");
+    println!("determinism: {total} scenarios x3 executions, {bad} divergent, digest={digest:016x} per-gen {per_gen:?}");
     if bad > 0 {
         2
     } else {
